@@ -320,7 +320,9 @@ def run(tier, seed):
     except D.BuildError as e:
         D.log(str(e))
         return D.finish(prop, tier, seed, t0, {"evaluations": 0, "distinct_nontrivial": 0, "rule": D.RULES[prop], "samples": []}, [], [], [], ["daacfind could not be built"])
-    n = 400 if tier == "quick" else 6000
+    n = 1500 if tier == "quick" else 20000
+    if os.environ.get("VERIF_SCALE"):
+        n = max(50, int(n * float(os.environ["VERIF_SCALE"])))
     outdir = os.path.join(D.OUT, "runs", "C16-%s-%d-%d" % (tier, seed, os.getpid()))
     shutil.rmtree(outdir, ignore_errors=True)
     os.makedirs(outdir)
